@@ -56,6 +56,14 @@ def gen_fullq(rng):
             ops.append("F %d" % victim)
         if rng.chance(4):
             ops.append("t %d" % (1 + 2 * rng.below(NL // 2)))
+    if rng.chance(45):
+        # the gate lags (it waits for room in the victim's queue): a connect() stays in flight and is given up
+        free = [l for l in range(NL) if l not in conn]
+        if free:
+            l = rng.choice(free)
+            ops += ["c %d" % l, "a %d" % l]
+            if rng.chance(50):
+                ops += ["D %d" % victim, "c %d" % l, "u %d" % rng.below(nclones + 1)]
     ops.append(rng.weighted([("Z", 50), ("T", 30), ("X", 8), ("M", 6), ("k", 6)]))
     for _ in range(rng.range(2, 9)):
         k = rng.weighted([("D", 28), ("F", 24), ("u", 18), ("x", 8), ("X", 8), ("q", 8), ("c", 4), ("Z", 3), ("a", 4)])
